@@ -30,10 +30,10 @@ def main():
         rows.append(f"| {k} | {cell(m['change'])} | {cell(m['needs'])} | {cell(m['caught_by'])} | {first} |")
         if m.get("initially_missed") and m.get("strengthening"):
             missed.append(f"* **{k}**: {cell(m['strengthening'])}")
-    n_missed = sum(1 for _, m in metas if m.get("initially_missed"))
+    n_missed = sum(1 for _, m in metas if m.get("initially_missed") and not m.get("rejected"))
     n_rej = sum(1 for _, m in metas if m.get("rejected"))
     body = "\n".join(rows) + "\n\n" + (
-        f"{len(metas)} seeded changes; {n_rej} not counted (it does not break the property as stated, see its row); the other "
+        f"{len(metas)} seeded changes; {n_rej} not counted (they do not break the property as stated on the final tree, see their rows); the other "
         f"{len(metas) - n_rej} are all caught by the final checks, {n_missed} of them only after strengthening (where the\n"
         "report of a change made the gap obvious the check was strengthened before the change was first run; this is\n"
         "said in the entry):\n\n") + "\n".join(missed) + "\n\n"
